@@ -457,6 +457,9 @@ func (r *run) step(nd *node, ph string) outcome {
 		err = nd.lock.VerifySignatures(nil)
 	}
 	st, class, blame := classify(ph, err)
+	if st == "err" && class == "other" && r.ctx.Err() != nil {
+		st, class = "ctx", "ctx" // some transport error of a call that the operator's cancellation interrupted
+	}
 	ev["st"], ev["err"], ev["blame"] = st, class, blame
 	if err != nil {
 		m := err.Error()
